@@ -233,6 +233,10 @@ func runC14History(r *mon.Run, stream uint64) {
 		var set1 []types.Transaction
 		var set2 []types.V2Transaction
 		expectErr := false
+		// the valid fresh part of a set that is built to be rejected: offered
+		// again alone right after the rejection it has to be accepted
+		var retry1 []types.Transaction
+		var retry2 []types.V2Transaction
 		switch kind {
 		case "fresh":
 			set1, set2 = fv1, fv2
@@ -294,11 +298,11 @@ func runC14History(r *mon.Run, stream uint64) {
 			case len(c2) > 0 && len(pre.v2) > 0 && independentV2(fv2, c2[0]):
 				nk := 1 + rng.IntN(len(pre.v2))
 				set2 = append(append(append([]types.V2Transaction{}, pre.v2[:nk]...), fv2...), c2[0])
-				expectErr = true
+				expectErr, retry2 = true, fv2
 			case len(c1) > 0 && len(pre.v1) > 0:
 				nk := 1 + rng.IntN(len(pre.v1))
 				set1 = append(append(append([]types.Transaction{}, pre.v1[:nk]...), fv1...), c1[0])
-				expectErr = true
+				expectErr, retry1 = true, fv1
 			default:
 				set1, set2 = fv1, fv2
 				cs.Kind = "fresh"
@@ -327,10 +331,10 @@ func runC14History(r *mon.Run, stream uint64) {
 			}
 			if len(c1) > 0 && len(fv1) > 0 {
 				set1 = append(append([]types.Transaction{}, fv1...), c1...)
-				expectErr = true
+				expectErr, retry1 = true, fv1
 			} else if len(c2) > 0 && len(fv2) > 0 && independentV2(fv2, c2[0]) {
 				set2 = append(append([]types.V2Transaction{}, fv2...), c2...)
-				expectErr = true
+				expectErr, retry2 = true, fv2
 			} else {
 				set1, set2 = fv1, fv2
 				cs.Kind = "fresh"
@@ -342,7 +346,7 @@ func runC14History(r *mon.Run, stream uint64) {
 				set2[k] = set2[k].DeepCopy()
 				if len(set2[k].SiacoinInputs) > 0 && len(set2[k].SiacoinInputs[0].SatisfiedPolicy.Signatures) > 0 {
 					set2[k].SiacoinInputs[0].SatisfiedPolicy.Signatures[0][3] ^= 4
-					expectErr = true
+					expectErr, retry2 = true, append([]types.V2Transaction{}, set2[:k]...)
 				}
 			} else if len(fv1) > 0 {
 				set1 = fv1
@@ -350,7 +354,7 @@ func runC14History(r *mon.Run, stream uint64) {
 				if len(set1[k].Signatures) > 0 {
 					set1[k] = chainlab.DeepCopyTxn(set1[k])
 					set1[k].Signatures[0].Signature[3] ^= 4
-					expectErr = true
+					expectErr, retry1 = true, append([]types.Transaction{}, set1[:k]...)
 				}
 			}
 		}
@@ -411,6 +415,40 @@ func runC14History(r *mon.Run, stream uint64) {
 			}
 			if known {
 				r.Violation("known-with-error", "known=true together with an error", cs, nil)
+			}
+			// "none of them": the rejected set must not linger anywhere - its valid
+			// fresh part alone is still an acceptable set
+			if len(set1) > 0 {
+				retry2 = nil
+			} else {
+				retry1 = nil
+			}
+			if expectErr && len(retry1)+len(retry2) > 0 && post.key() == pre.key() {
+				vb := tip.L.NewBuilder(rng)
+				alone := true
+				for _, x := range retry1 {
+					alone = alone && vb.TryV1("retry", chainlab.DeepCopyTxn(x))
+				}
+				var in2 []types.V2Transaction
+				for _, x := range retry2 {
+					alone = alone && vb.TryV2("retry", x.DeepCopy())
+					in2 = append(in2, x.DeepCopy())
+				}
+				if alone {
+					var rerr error
+					if len(retry1) > 0 {
+						_, rerr = cm.AddPoolTransactions(retry1)
+					} else {
+						_, rerr = cm.AddV2PoolTransactions(tip.L.State.Index, in2)
+					}
+					r.Count("valid_part_of_rejected_set_resubmitted", 1)
+					if rerr != nil {
+						c := cs
+						c.Set = idsOf(retry1, retry2)
+						r.Violation("rejected-set-left-trace:"+cs.Kind, "the valid fresh part of a rejected set, submitted alone right afterwards, is refused: "+rerr.Error(), c, nil)
+					}
+					post = snapPool(cm)
+				}
 			}
 		} else {
 			if expectErr {
@@ -604,6 +642,7 @@ func runC14(r *mon.Run, replay string) {
 	r.Floor("steps_with_both_kinds_pooled", 50)
 	r.Floor("submissions_rejected", 50)
 	r.Floor("partly_known_sets_ending_with_known", 20)
+	r.Floor("valid_part_of_rejected_set_resubmitted", 20)
 	r.Floor("lookups:PoolTransaction:v2", 100)
 	r.Floor("lookups:V2PoolTransaction:v1", 100)
 	_ = rand.Int
